@@ -98,6 +98,42 @@ def bare_vs_one_channel(rng):
     return None
 
 
+def supervised_one_channel(rng):
+    """with a reset function (SimpleARTMAP's class veto) and every match-tracking mode: a one-channel FusionART with
+    gamma = 1 as the A side behaves exactly like the bare module as the A side, and after the call every channel module
+    has its configured hyper-parameters again"""
+    import artlib, copy
+    kind = rng.choice(["Fuzzy", "Fuzzy", "ART2A"])
+    k, rows = B.gen_kernel_and_rows(rng, kind, nmax=12)
+    X = np.array(rows, dtype=float)
+    y = np.array([rng.randrange(2) for _ in rows])
+    mode, eps = B.gen_mode(rng)
+    fus = artlib.FusionART([B.make_est(k)], [1.0], [X.shape[1]])
+    p0 = copy.deepcopy(fus.modules[0].params)
+    a, b = artlib.SimpleARTMAP(B.make_est(k)), artlib.SimpleARTMAP(fus)
+    rep = {"kernel": {kk: str(vv) for kk, vv in k.items()}, "X": X.tolist(), "y": y.tolist(), "mode": mode, "eps": str(eps)}
+    try:
+        ra = rb = None
+        try:
+            a.fit(X, y, match_tracking=mode, epsilon=float(eps)); ra = "ok"
+        except Exception as e:
+            ra = type(e).__name__
+        try:
+            b.fit(X, y, match_tracking=mode, epsilon=float(eps)); rb = "ok"
+        except Exception as e:
+            rb = type(e).__name__
+        if ra != rb:
+            return {"signature": "FusionART/one-channel-bare-supervised", "text": f"SimpleARTMAP over the bare module: {ra}; over the one-channel FusionART: {rb}", "replay": rep}
+        if repr(sorted(fus.modules[0].params.items())) != repr(sorted(p0.items())):
+            return {"signature": "FusionART/channel-params-restored", "text": f"after SimpleARTMAP.fit the channel module's hyper-parameters are {fus.modules[0].params}, configured {p0}", "replay": rep}
+        if ra == "ok" and (list(a.module_a.labels_) != list(fus.labels_) or len(a.module_a.W) != len(fus.W)
+                           or not all(np.array_equal(u, v) for u, v in zip(a.module_a.W, fus.W))):
+            return {"signature": "FusionART/one-channel-bare-supervised", "text": "as the A side of SimpleARTMAP a one-channel FusionART with gamma=1 differs from the bare module", "replay": rep}
+    except Exception as e:
+        return {"signature": "FusionART/one-channel-bare-supervised", "text": f"{type(e).__name__}: {str(e)[:80]}", "replay": rep}
+    return None
+
+
 def permutation(rng):
     f = F.gen_fusion(rng, nch=rng.choice([2, 3]))
     n = len(f["ks"])
@@ -211,7 +247,7 @@ def main():
         stats["with_veto"] += 1 if ops[0].get("veto") else 0
         fails.extend(oracle(f, ops))
     for _ in range(60 if tier == "quick" else 600):
-        for g in (bare_vs_one_channel, permutation, long_weight, dtype_variants):
+        for g in (bare_vs_one_channel, supervised_one_channel, permutation, long_weight, dtype_variants):
             r = g(rng)
             if r:
                 fails.append(r)
